@@ -4,10 +4,10 @@ import PyaModel.Spec.D01
 /-! Line protocol driver for C01.
 in : `run <prog> <args>`   prog = `(prog (<T>…) <stmt>…)`, args = `(args <o>…)` (s-expressions, Core/Sexp.lean)
         prog may carry `(rets <T>…)` (declared return types of the helper functions) after the parameter types
-        stmt = `(asg x e)` | `(if t (<stmt>…) (<stmt>…))` | `(ret e)` | `(unp (x…) e)` | `(for x e (<stmt>…))`
-        expr = `(lit o)` | `(var x)` | `(tup e…)` | `(lst e…)` | `(sub e i)` | `(ite t a b)` | `(call f e…)`
+        stmt = `(asg x e)` | `(if t (<stmt>…) (<stmt>…))` | `(ret e)` | `(unp (x…) e)` | `(for x e (<stmt>…))` | `(aug x e)`
+        expr = `(lit o)` | `(var x)` | `(tup e…)` | `(lst e…)` | `(sub e i)` | `(ite t a b)` | `(call f e…)` | `(add a b)`
         test = `(isnone x)` | `(notnone x)` | `(not t)`
-     `cls <skeleton tokens>`   (Spec/D01.lean)     `call <shared> <seqForm> <valSeq>`     `conv <isListOrTuple> <seqForm> <valSeq>`
+     `cls <skeleton tokens>`   (Spec/D01.lean)     `call <shared> <seqForm> <valSeq>`     `conv <isListOrTuple> <seqForm> <valSeq>`     `subl <isSub> <assignedInLoop>`
      `mem <o> <T>`
 out: run: `I <path>=<T>;… | F <flags> | X <path>=<o>;… | O <outcome> | A <argsOk>`  (path = indices joined by `.`, root first)
      cls: the classes, comma separated, `-` if none;   mem: `1`/`0`
@@ -31,6 +31,7 @@ partial def toExpr : Sexp → Option Expr
   | .node [.atom "sub", e, .atom i] => do some (.sub (← toExpr e) (← i.toInt?))
   | .node [.atom "ite", t, a, b] => do some (.ite (← toTest t) (← toExpr a) (← toExpr b))
   | .node (.atom "call" :: .atom f :: es) => do some (.call (← f.toNat?) (← toExprs es))
+  | .node [.atom "add", a, b] => do some (.add (← toExpr a) (← toExpr b))
   | _ => none
 partial def toExprs : List Sexp → Option (List Expr)
   | [] => some []
@@ -41,6 +42,7 @@ mutual
 partial def toStmt : Sexp → Option Stmt
   | .node [.atom "asg", .atom x, e] => do some (.assign (← x.toNat?) (← toExpr e))
   | .node [.atom "ret", e] => (toExpr e).map Stmt.ret
+  | .node [.atom "aug", .atom x, e] => do some (.aug (← x.toNat?) (← toExpr e))
   | .node [.atom "for", .atom x, e, .node b] => do some (.forS (← x.toNat?) (← toExpr e) (← toStmts b))
   | .node [.atom "unp", .node xs, e] => do
     some (.unpack (← xs.mapM fun x => match x with | .atom a => a.toNat? | _ => none) (← toExpr e))
@@ -170,6 +172,8 @@ def handle (line : String) : String :=
     if D01_seqLeniency (a == "1") (l == "1") (r == "1") then "C04:seqLeniency" else "-"
   | some [.atom "conv", .atom a, .atom l, .atom r] =>
     if D01_setDisplayOrder (a == "1") (l == "1") (r == "1") then "setDisplayOrder" else "-"
+  | some [.atom "subl", .atom a, .atom l] =>
+    if D01_loopCarriedSubscript (a == "1") (l == "1") then "loopCarriedSubscript" else "-"
   | some [.atom "mem", o, t] =>
     match o.toObj, t.toTy with
     | some o, some t => b2s (mem liveTable o t)
